@@ -467,3 +467,18 @@ Proof.
   intros Hm. apply (Merge_flat_map atom1) in Hm. rewrite map_map in Hm.
   erewrite map_ext in Hm; [exact Hm|]. intros t. apply atomize_thread.
 Qed.
+
+(* ------------------------------------------------------------------ part 3: the two sections of inc / dec / set_position *)
+Lemma pos_sections_adjacent (W H : N) (fails : N -> bool) (s : sys) (now : N) (o : op) (b : N) :
+  (exists d, o = OInc b d \/ o = ODec b d \/ o = OSetPos b d) ->
+  let '(s1, e1) := psec_step W H fails s now (PStore o) in
+  let '(s2, e2) := psec_step W H fails s1 now (PBracket b) in
+  (s2, e1 ++ e2) = (step_sys W H fails s now o, step_out W H fails s now o).
+Proof.
+  intros [d [ -> | [ -> | -> ] ] ]; cbn [psec_step pos_store app]; unfold pos_bracket, step_sys, step_out;
+    cbn [Sys.step fst snd]; unfold bar_pos_update;
+    match goal with |- context [ap_allow ?a now] => destruct (ap_allow a now) as [[|] ap'] end;
+    try reflexivity;
+    match goal with |- context [bar_tick W H fails ?s0 b now] => destruct (bar_tick W H fails s0 b now) as [s2 e2] end;
+    reflexivity.
+Qed.
